@@ -24,9 +24,10 @@ deriving Repr, DecidableEq
 inductive Err where
   | draws     -- the draw list ended inside a run
   | kind      -- the next draw is of another kind than the call the code makes here (or an impossible value)
-  | fuel      -- loop fuel exhausted (theorems: never)
-  | state     -- an internal lookup failed (theorems: never on reachable states)
-  | arg       -- inadmissible argument
+  | fuel      -- loop fuel exhausted (never: `bd_only_script_errors`, `fbd_only_script_errors`, `pb_only_script_errors`,
+              --   `kingman_only_script_errors`, `contained_never_internal_error`, `coalesce_fuel_suffices`)
+  | state     -- an internal lookup failed (never, same theorems: with admissible rates every lookup succeeds)
+  | arg       -- inadmissible argument: the code raises (empty namespace, no genes, birth + death <= 0)
 deriving Repr, DecidableEq
 
 /-! ## `probability.weighted_index_choice` in exact arithmetic
@@ -391,6 +392,7 @@ def pbLoop (n : Nat) : Nat → BT → Nat → List Draw → Except Err (BT × Li
 
 /-- leaves receive `taxon_namespace[idx]` in tree order -/
 def pbRun (n : Nat) (ds : List Draw) : Except Err SimResult :=
+  if n == 0 then .error .arg else   -- `taxon_namespace[0]` raises IndexError on an empty namespace
   match pbLoop n (ds.length + 1) (.tip 0 0 true) 1 ds with
   | .error e => .error e
   | .ok (t, rest) =>
